@@ -315,10 +315,20 @@ func c06Regex(c *Ctx) {
 					}
 				}
 			}
+			// nothing to try at all: `if len(matchers) == 0 { return false }`
+			for _, dc := range conds {
+				if b, ok := dc.V.(*ssa.BinOp); ok {
+					if x, isLen := isLenOf(b.X); isLen && isFV(x, matchFV) {
+						if k0, isC := ConstInt(b.Y); isC && k0 == 0 && ((b.Op == token.EQL && dc.Pol) || (b.Op == token.NEQ && !dc.Pol) || (b.Op == token.GTR && !dc.Pol)) {
+							ex = true
+						}
+					}
+				}
+			}
 			c.Check(ex && !InLoop(r.Block()), "regex-any-of", key+" rejects after all tried", p.InstrPos(r), "false only after every expression was tried", "the filter rejects before all expressions were tried (first-mismatch instead of any-of)")
 		}
 	}
-	c.Check(ntrue == 1 && nfalse == 1, "regex-any-of", "filter closure arms", p.Pos(cl.Pos()), "", fmt.Sprintf("expected one admitting and one rejecting return, found %d/%d", ntrue, nfalse))
+	c.Check(ntrue == 1 && nfalse >= 1, "regex-any-of", "filter closure arms", p.Pos(cl.Pos()), "", fmt.Sprintf("expected one admitting and one rejecting return, found %d/%d", ntrue, nfalse))
 	// compile loop: matchers[i] = MustCompile(expressions[i]); len(matchers)=len(expressions)
 	okLen, okFill := false, false
 	for _, b := range rf.Blocks {
